@@ -90,6 +90,14 @@ func runHook(executeable, store string) {
 }
 
 func (h *HooksCaller) runAllHooks() {
+	// A reload announces the new store directory before any change made after it, but
+	// select{} might hand us the notification first - pick up the new directory now.
+	select {
+	case s := <-h.NewStore:
+		h.store = s
+	default:
+	}
+
 	dir, err := os.Open(h.dir)
 	if err != nil {
 		wl.Printf("Hooks: error opening hooks directory: %v", err)
